@@ -106,6 +106,8 @@ def _dim_elem(x):
 
 
 def v_len(x):
+    if hasattr(x, "__pyvc_len__"):
+        return x.__pyvc_len__()
     if isinstance(x, SymArr):
         a = x.axes[0]
         return a.size if isinstance(a, Dim) else a
